@@ -169,8 +169,6 @@ def mk_obj1(aa, vals, mask, sc):
     if not any(mask) and len(vals) % 2 == 0: return aa.Array1D.no_mask(values=np.array(vals, dtype="float64"), pixel_scales=float(sc))
     return aa.Array1D(values=np.array(vals, dtype="float64"), mask=aa.Mask1D(mask=np.array(mask, dtype=bool), pixel_scales=float(sc)))
 
-def aniso(sc): return float(sc[0]) != float(sc[1])
-
 def run_case(inp):
     aa = import_aa()
     from autoarray.structures.arrays import array_2d_util, array_1d_util
@@ -214,7 +212,6 @@ def run_case(inp):
             r = okmap(r, obs_arr2)
         wx = None if w[0] == "ok" else w[1]
         out = [wx, fsa, r]
-        if aniso(sc): finding = "anisotropic-pixel-scale"
         coq = (f"KFile2 {cbool(flip)} {'KKernel' if kd == 'kernel' else 'KArray'} {carr(vals)} {cbarr(mask)} {csc2(sc)} "
                f"{cfs(inp['fs0'], carr)} {cpath(inp['p'])} {cbool(inp['ow'])} {cz(inp['k'])} {coexn(wx)} {cfs(fsa, carr)} {cfres(r, cobs2)}")
     elif op == "hdu2":
@@ -226,7 +223,6 @@ def run_case(inp):
             cls = aa.Kernel2D if kd == "kernel" else aa.Array2D
             r = okmap(call(cls.from_primary_hdu, primary_hdu=h), lambda o: obs_arr2(o, False))
         out = [raw, r]
-        if aniso(sc): finding = "anisotropic-pixel-scale"
         coq = (f"KHdu2 {cbool(flip)} {'KKernel' if kd == 'kernel' else 'KArray'} {carr(vals)} {cbarr(mask)} {csc2(sc)} "
                f"{chdu(raw, carr)} {cfres(r, cobs2)}")
     elif op == "filem2":
@@ -251,7 +247,6 @@ def run_case(inp):
             raw = raw_of(h)
             r = okmap(call(aa.Mask2D.from_primary_hdu, primary_hdu=h), obs_m2)
         out = [raw, r]
-        if aniso(sc): finding = "anisotropic-pixel-scale"
         coq = f"KHduM2 {cbool(flip)} {cbarr(mask)} {csc2(sc)} {chdu(raw, carr)} {cfres(r, cobsm2)}"
     elif op == "multi2":
         from astropy.io import fits
@@ -264,7 +259,6 @@ def run_case(inp):
             fits.HDUList(hs).writeto("multi.fits")
             r = okmap(call(aa.Array2D.from_fits, file_path="multi.fits", pixel_scales=1.0, hdu=inp["k"]), obs_arr2)
         out = [r]
-        if any(aniso(s) for _, _, s in objs): finding = "anisotropic-pixel-scale"
         cobjs = clist([ctup([carr(v), cbarr(m), csc2(s)]) for v, m, s in objs])
         coq = f"KMulti2 {cbool(flip)} {cobjs} {cz(inp['k'])} {cfres(r, cobs2)}"
     elif op == "file1":
@@ -287,8 +281,6 @@ def run_case(inp):
             raw = raw_of(h)
             r = okmap(call(aa.Array1D.from_primary_hdu, primary_hdu=h), lambda o: obs_arr1(o, False))
         out = [raw, r]
-        nat = [0.0 if m else float(v) for v, m in zip(vals, mask)]
-        if flip and nat != nat[::-1]: finding = "array1d-hdu-flip"
         coq = f"KHdu1 {cbool(flip)} {crow(vals)} {cbrow(mask)} {cq(fr(sc))} {chdu(raw, crow)} {cfres(r, cobs1)}"
     elif op == "filem1":
         mask, sc = inp["mask"], inp["sc"]; cells = len(mask)
@@ -463,7 +455,7 @@ def gen_inputs(tier, rng):
             objs = [[content2(2, 3), mask, [1.0, 1.0]], [content2(3, 1), falses(3, 1), [0.5, 0.5]], [content2(1, 4), [[True, False, False, True]], [2.0, 2.0]]]
             for n in (1, 2, 3):
                 if -n - 1 <= k <= n: yield {"op": "multi2", "flip": flip, "objs": objs[:n], "k": k}
-    # 5. anisotropic pixel scales (known finding D15) -- a small, fixed share of the run
+    # 5. anisotropic pixel scales (PIXSCALEY / PIXSCALEX cards)
     for flip in (False, True):
         for sc in ([1.0, 2.0], [0.5, 0.25]):
             yield {"op": "hdu2", "flip": flip, "kd": "array", "vals": vals, "mask": mask, "sc": sc}
